@@ -101,6 +101,7 @@ struct Role {
     released: bool,
     finished: bool,
     result: Option<bool>,
+    reply: Option<String>,
     events: Vec<Ev>,
 }
 
@@ -262,7 +263,9 @@ impl Rec {
     }
 
     fn unbind(&self, r: usize, result: Option<bool>) {
+        let reply = take_reply();
         let mut st = self.st.lock().unwrap_or_else(|p| p.into_inner());
+        st.role[r].reply = reply;
         st.recording[r] = false;
         st.role[r].finished = true;
         st.role[r].result = result;
@@ -457,6 +460,16 @@ impl Sys {
     }
 }
 
+/// GetHeartbeat: what the signed heartbeat says about the chain
+fn heartbeat_request(node: &Arc<Node>) -> bool {
+    let hb = node.get_heartbeat();
+    set_reply(format!(
+        "tip={} height={} tip_time={}",
+        hb.heartbeat.chain_tip, hb.heartbeat.chain_height, hb.heartbeat.chain_timestamp
+    ));
+    true
+}
+
 /// a spend of the funding outpoint that is not a commitment transaction
 fn mutual_close_tx(c: &Chan) -> Transaction {
     Transaction {
@@ -536,7 +549,7 @@ fn final_state(sys: &Sys) -> Value {
 }
 
 /// the same two requests (prepared in the same order) run one after the other
-fn run_sequential(rec: &Arc<Rec>, first: &str, second: &str, swap: bool) -> Option<(Vec<Option<bool>>, Value)> {
+fn run_sequential(rec: &Arc<Rec>, first: &str, second: &str, swap: bool) -> Option<(Vec<Rep>, Value)> {
     rec.reset();
     let r0 = rec.add_role(None);
     rec.bind(r0, false);
@@ -545,12 +558,17 @@ fn run_sequential(rec: &Arc<Rec>, first: &str, second: &str, swap: bool) -> Opti
         let p = make_req(&mut sys, first);
         let q = make_req(&mut sys, second);
         let (rp, rq);
+        let _ = take_reply();
         if swap {
-            rq = catch_unwind(AssertUnwindSafe(q)).ok();
-            rp = catch_unwind(AssertUnwindSafe(p)).ok();
+            let b = catch_unwind(AssertUnwindSafe(q)).ok();
+            rq = (b, take_reply());
+            let a = catch_unwind(AssertUnwindSafe(p)).ok();
+            rp = (a, take_reply());
         } else {
-            rp = catch_unwind(AssertUnwindSafe(p)).ok();
-            rq = catch_unwind(AssertUnwindSafe(q)).ok();
+            let a = catch_unwind(AssertUnwindSafe(p)).ok();
+            rp = (a, take_reply());
+            let b = catch_unwind(AssertUnwindSafe(q)).ok();
+            rq = (b, take_reply());
         }
         (vec![rp, rq], final_state(&sys))
     }));
@@ -567,6 +585,29 @@ fn state_diff(a: &Value, b: &Value) -> Vec<String> {
 }
 
 type Req = Box<dyn FnOnce() -> bool + Send>;
+/// (Ok / refused / panicked, content of the reply)
+type Rep = (Option<bool>, Option<String>);
+
+thread_local! {
+    /// what the reply of the request running on this thread carries (set by the request)
+    static REPLY: std::cell::RefCell<Option<String>> = std::cell::RefCell::new(None);
+}
+fn set_reply(s: String) {
+    REPLY.with(|r| *r.borrow_mut() = Some(s));
+}
+fn take_reply() -> Option<String> {
+    REPLY.with(|r| r.borrow_mut().take())
+}
+/// Ok/Err of a request, with the content of an Ok reply noted for the comparison of outcomes
+fn replied<T, E>(r: Result<T, E>, f: impl FnOnce(&T) -> String) -> bool {
+    match &r {
+        Ok(v) => {
+            set_reply(f(v));
+            true
+        }
+        Err(_) => false,
+    }
+}
 
 const KINDS: &[&str] = &[
     // node-level requests first: scenario preparations of later kinds use them
@@ -627,10 +668,13 @@ fn make_req(sys: &mut Sys, kind: &str) -> Req {
     let peer = sys.peer;
     let a_id = sys.a.ctx.channel_id.clone();
     match kind {
-        "new_channel" => Box::new(move || node.new_channel(10, &peer, &node).is_ok()),
+        "new_channel" =>
+            Box::new(move || replied(node.new_channel(10, &peer, &node), |(id, _)| hex::encode(id.as_slice()))),
         "new_channel_existing" => {
             let dbid = sys.stub_dbid;
-            Box::new(move || node.new_channel(dbid, &peer, &node).is_ok())
+            Box::new(move || replied(node.new_channel(dbid, &peer, &node), |(id, slot)| {
+                format!("{} {}", hex::encode(id.as_slice()), match slot { Some(ChannelSlot::Ready(_)) => "ready", Some(ChannelSlot::Stub(_)) => "stub", None => "none" })
+            }))
         }
         "setup_channel" => {
             let id = sys.stub.clone();
@@ -653,7 +697,7 @@ fn make_req(sys: &mut Sys, kind: &str) -> Req {
         }
         "get_point_stub" => {
             let id = sys.stub.clone();
-            Box::new(move || node.with_channel_base(&id, |b| b.get_per_commitment_point(0)).is_ok())
+            Box::new(move || replied(node.with_channel_base(&id, |b| b.get_per_commitment_point(0)), |p| p.to_string()))
         }
         "validate_holder_commitment_closed" => {
             // the holder commitment was signed for broadcast: the channel is closed
@@ -664,7 +708,9 @@ fn make_req(sys: &mut Sys, kind: &str) -> Req {
             Box::new(move || {
                 node.with_channel(&a_id, |c| {
                     c.validate_holder_commitment_tx_phase2(1, 1100, to_h, to_c, vec![], vec![], &sig, &hs)?;
-                    c.revoke_previous_holder_commitment(1).map(|_| ())
+                    c.revoke_previous_holder_commitment(1).map(|(p, sec)| {
+                        set_reply(format!("validated 1, revoked 0: next point {} secret {}", p, sec.is_some()));
+                    })
                 })
                 .is_ok()
             })
@@ -678,7 +724,9 @@ fn make_req(sys: &mut Sys, kind: &str) -> Req {
                 node.with_channel(&a_id, |c| {
                     c.validate_holder_commitment_tx_phase2(1, 1100, to_h, to_c, vec![], vec![], &sig, &hs)?;
                     if revoke {
-                        c.revoke_previous_holder_commitment(1).map(|_| ())
+                        c.revoke_previous_holder_commitment(1).map(|(p, sec)| {
+                        set_reply(format!("validated 1, revoked 0: next point {} secret {}", p, sec.is_some()));
+                    })
                     } else {
                         c.get_per_commitment_point(2).map(|_| ())
                     }
@@ -700,7 +748,9 @@ fn make_req(sys: &mut Sys, kind: &str) -> Req {
             Box::new(move || {
                 node.with_channel(&id, |c| {
                     c.validate_holder_commitment_tx_phase2(1, 1100, to_h, to_c, offered.clone(), vec![], &sig, &hs)?;
-                    c.revoke_previous_holder_commitment(1).map(|_| ())
+                    c.revoke_previous_holder_commitment(1).map(|(p, sec)| {
+                        set_reply(format!("validated 1, revoked 0: next point {} secret {}", p, sec.is_some()));
+                    })
                 })
                 .is_ok()
             })
@@ -711,13 +761,19 @@ fn make_req(sys: &mut Sys, kind: &str) -> Req {
             let (sig, hs) = counterparty_sign_holder_commitment(&sys.nctx, &sys.a.ctx, &mut c1);
             node.with_channel(&a_id, |c| c.validate_holder_commitment_tx_phase2(1, 1100, to_h, to_c, vec![], vec![], &sig, &hs))
                 .expect("validate 1");
-            Box::new(move || node.with_channel(&a_id, |c| c.revoke_previous_holder_commitment(1)).is_ok())
+            Box::new(move || {
+                replied(node.with_channel(&a_id, |c| c.revoke_previous_holder_commitment(1)), |(p, sec)| {
+                    format!("revoked 0: next point {} secret {}", p, sec.map(|x| x.display_secret().to_string()).unwrap_or("none".into()))
+                })
+            })
         }
         "sign_counterparty_commitment" => {
             let pt = cp_point(0);
             Box::new(move || {
-                node.with_channel(&a_id, |c| c.sign_counterparty_commitment_tx_phase2(&pt, 0, 1100, VALUE - 1000 - 100, 0, vec![], vec![]))
-                    .is_ok()
+                replied(
+                    node.with_channel(&a_id, |c| c.sign_counterparty_commitment_tx_phase2(&pt, 0, 1100, VALUE - 1000 - 100, 0, vec![], vec![])),
+                    |(sig, hs)| format!("counterparty commitment 0 signed {} ({} htlc sigs)", sig, hs.len()),
+                )
             })
         }
         "sign_counterparty_commitment_htlc" | "sign_counterparty_commitment_htlc_b" => {
@@ -733,10 +789,12 @@ fn make_req(sys: &mut Sys, kind: &str) -> Req {
             let received = vec![HTLCInfo2 { value_sat: 10_000, payment_hash: hash, cltv_expiry: 50 }];
             Box::new(move || {
                 // our offered HTLC is a received HTLC of their commitment
-                node.with_channel(&id, |c| {
-                    c.sign_counterparty_commitment_tx_phase2(&pt, 1, 1100, VALUE - 1000 - 10_000 - 5000, 0, vec![], received.clone())
-                })
-                .is_ok()
+                replied(
+                    node.with_channel(&id, |c| {
+                        c.sign_counterparty_commitment_tx_phase2(&pt, 1, 1100, VALUE - 1000 - 10_000 - 5000, 0, vec![], received.clone())
+                    }),
+                    |(sig, hs)| format!("counterparty commitment 1 signed {} ({} htlc sigs)", sig, hs.len()),
+                )
             })
         }
         "validate_counterparty_revocation" => {
@@ -750,15 +808,19 @@ fn make_req(sys: &mut Sys, kind: &str) -> Req {
             Box::new(move || node.with_channel(&a_id, |c| c.validate_counterparty_revocation(0, &sk)).is_ok())
         }
         "sign_holder_commitment" =>
-            Box::new(move || node.with_channel(&a_id, |c| c.sign_holder_commitment_tx_phase2(0)).is_ok()),
+            Box::new(move || {
+                replied(node.with_channel(&a_id, |c| c.sign_holder_commitment_tx_phase2(0)), |sig| format!("holder commitment 0 signed {}", sig))
+            }),
         "sign_mutual_close" => {
             let pt0 = cp_point(0);
             node.with_channel(&a_id, |c| c.sign_counterparty_commitment_tx_phase2(&pt0, 0, 1100, VALUE - 1000 - 100, 0, vec![], vec![]))
                 .expect("cp 0");
             let (script, path) = make_test_wallet_dest(&sys.nctx, 5, SpendType::P2wpkh);
             Box::new(move || {
-                node.with_channel(&a_id, |c| c.sign_mutual_close_tx_phase2(VALUE - 2000, 0, &Some(script.clone()), &None, &path))
-                    .is_ok()
+                replied(
+                    node.with_channel(&a_id, |c| c.sign_mutual_close_tx_phase2(VALUE - 2000, 0, &Some(script.clone()), &None, &path)),
+                    |sig| format!("mutual close signed {}", sig),
+                )
             })
         }
         "htlcs_fulfilled" => {
@@ -772,26 +834,21 @@ fn make_req(sys: &mut Sys, kind: &str) -> Req {
                 .is_ok()
             })
         }
-        "channel_balance_query" => Box::new(move || node.with_channel(&a_id, |c| Ok(c.balance())).is_ok()),
+        "channel_balance_query" =>
+            Box::new(move || replied(node.with_channel(&a_id, |c| Ok(c.balance())), |b| format!("{:?}", b))),
         "node_balance_query" => Box::new(move || {
-            let _ = node.channel_balance();
+            set_reply(format!("{:?}", node.channel_balance()));
             true
         }),
         "chaninfo_query" => Box::new(move || {
-            let _ = node.chaninfo();
+            set_reply(format!("{:?}", node.chaninfo()));
             true
         }),
-        "heartbeat" => Box::new(move || {
-            let _ = node.get_heartbeat();
-            true
-        }),
+        "heartbeat" => Box::new(move || heartbeat_request(&node)),
         "heartbeat_prune_stub" => {
             // a stub older than the prune horizon (regtest: CHANNEL_STUB_PRUNE_BLOCKS + 100)
             sys.connect_empty(108);
-            Box::new(move || {
-                let _ = node.get_heartbeat();
-                true
-            })
+            Box::new(move || heartbeat_request(&node))
         }
         "heartbeat_prune_closed" => {
             // mutual close confirmed, channel forgotten by the node, buried: the monitor is done
@@ -800,10 +857,7 @@ fn make_req(sys: &mut Sys, kind: &str) -> Req {
             sys.connect(vec![close]);
             node.forget_channel(&a_id).expect("forget");
             sys.connect_empty(101);
-            Box::new(move || {
-                let _ = node.get_heartbeat();
-                true
-            })
+            Box::new(move || heartbeat_request(&node))
         }
         "approve_invoice" => {
             sys.world.clock.set(Duration::from_secs(123456790));
@@ -1151,6 +1205,7 @@ fn race_once(rec: &Arc<Rec>, spec: &[String], patience: Duration) -> (Value, boo
                 "park_before_acquisition": before[r],
                 "finished": st.role[r].finished,
                 "result": st.role[r].result,
+                "reply": st.role[r].reply,
                 "holds": st.role[r].held.iter().map(|l| lock_name(&st, *l)).collect::<Vec<_>>(),
                 "waits_for": st.role[r].waiting.map(|l| lock_name(&st, l)),
                 "held_by_thread": blocked_on(&st, r),
@@ -1228,6 +1283,7 @@ fn sweep(rec: &Arc<Rec>, args: &Args) {
     let mut acqs: Vec<(String, usize, Vec<String>)> = vec![];
     let mut progs: Vec<(String, usize, Vec<String>, Vec<u8>)> = vec![];
     let mut s_window: Vec<(Vec<bool>, Vec<bool>)> = vec![];
+    let mut windows: Vec<HashMap<String, (Vec<bool>, Vec<bool>)>> = vec![];
     for kind in KINDS {
         rec.reset();
         let r0 = rec.add_role(None);
@@ -1244,6 +1300,7 @@ fn sweep(rec: &Arc<Rec>, args: &Args) {
                 acqs.push((kind.to_string(), 0, vec![]));
                 progs.push((kind.to_string(), 0, vec![], vec![]));
                 s_window.push((vec![], vec![]));
+                windows.push(HashMap::new());
                 continue;
             }
         };
@@ -1266,28 +1323,44 @@ fn sweep(rec: &Arc<Rec>, args: &Args) {
                 rel = 0;
             }
         }
-        // pause points inside a check-then-act window of the node state: one S section is over, S is
-        // not held, another S section follows
-        let total_s = st.role[r].events.iter().filter(|e| e.kind == 'A' && e.class == 1).count();
-        let (mut done_s, mut held_s, mut started_s) = (0usize, false, 0usize);
-        let (mut w_after, mut w_before) = (vec![], vec![]);
+        // pause points inside a check-then-act window of a structural lock l (node state, channel map,
+        // a channel slot, tracker): one section of l is over, l is not held, another section of l follows
+        let mut wins: HashMap<String, (Vec<bool>, Vec<bool>)> = HashMap::new();
+        let mut lset: Vec<(u64, u64)> = vec![];
         for e in st.role[r].events.iter() {
-            match e.kind {
-                'A' => {
-                    w_before.push(done_s >= 1 && !held_s && started_s < total_s);
-                    if e.class == 1 {
-                        held_s = true;
-                        started_s += 1;
-                    }
-                    w_after.push(done_s >= 1 && !held_s && started_s < total_s);
-                }
-                'R' if e.class == 1 => {
-                    held_s = false;
-                    done_s += 1;
-                }
-                _ => {}
+            if e.kind == 'A' && (1..=4).contains(&e.class) && !lset.contains(&(e.class, e.inst)) {
+                lset.push((e.class, e.inst));
             }
         }
+        for l in lset {
+            let total = st.role[r].events.iter().filter(|e| e.kind == 'A' && (e.class, e.inst) == l).count();
+            if total < 2 {
+                continue;
+            }
+            let (mut done, mut held, mut started) = (0usize, false, 0usize);
+            let (mut w_after, mut w_before) = (vec![], vec![]);
+            for e in st.role[r].events.iter() {
+                let mine = (e.class, e.inst) == l;
+                match e.kind {
+                    'A' => {
+                        w_before.push(done >= 1 && !held && started < total);
+                        if mine {
+                            held = true;
+                            started += 1;
+                        }
+                        w_after.push(done >= 1 && !held && started < total);
+                    }
+                    'R' if mine => {
+                        held = false;
+                        done += 1;
+                    }
+                    _ => {}
+                }
+            }
+            wins.insert(lock_name(&st, l), (w_after, w_before));
+        }
+        let (w_after, w_before) = wins.get("S#0").cloned().unwrap_or((vec![false; seq.len()], vec![false; seq.len()]));
+        windows.push(wins);
         s_window.push((w_after, w_before));
         progs.push((kind.to_string(), seq.len(), seq.clone(), rel_before));
         acqs.push((kind.to_string(), seq.len(), seq));
@@ -1386,6 +1459,55 @@ fn sweep(rec: &Arc<Rec>, args: &Args) {
             }
         }
     }
+    // requests with a check-then-act window on any structural lock (named by the caller): paused inside
+    // the window, against every other request that takes that very lock
+    let mut focus_w: Vec<usize> = vec![];
+    for a in args.rest.iter() {
+        if let Some(list) = a.strip_prefix("focus_w=") {
+            focus_w.extend(list.split(',').filter_map(|n| index_of(n)));
+        }
+    }
+    for &pi in focus_w.iter() {
+        let mut locks: Vec<&String> = windows[pi].keys().collect();
+        locks.sort();
+        for l in locks {
+            let (wa, wb) = &windows[pi][l];
+            let mut pts: Vec<String> = vec![];
+            for k in 1..=acqs[pi].1 {
+                if wb[k - 1] && points_all[pi].contains(&format!("@{}", k)) {
+                    pts.push(format!("@{}", k));
+                }
+                if wa[k - 1] {
+                    pts.push(format!(":{}", k));
+                }
+            }
+            for qi in 0..acqs.len() {
+                if qi == pi || !acqs[qi].2.contains(l) {
+                    continue;
+                }
+                for pt in pts.iter() {
+                    if seen.insert((pi, pt.clone(), qi)) {
+                        triples.push((pi, pt.clone(), qi));
+                    }
+                }
+            }
+        }
+    }
+    // every pause point inside a heartbeat against every block request (the heartbeat reports tip and height)
+    for (pi, a) in acqs.iter().enumerate() {
+        if !a.0.starts_with("heartbeat") {
+            continue;
+        }
+        for (qi, b) in acqs.iter().enumerate() {
+            if b.0.starts_with("add_block") || b.0.starts_with("remove_block") || b.0.starts_with("block_chunk") {
+                for pt in points_all[pi].iter() {
+                    if seen.insert((pi, pt.clone(), qi)) {
+                        triples.push((pi, pt.clone(), qi));
+                    }
+                }
+            }
+        }
+    }
     let tier1 = triples.len();
     // tier 2: two requests that lock the same channel slot, one of them a commitment update
     let is_update = |n: &str| ["validate_holder_commitment", "revoke_holder_commitment", "sign_counterparty_commitment",
@@ -1461,7 +1583,7 @@ fn sweep(rec: &Arc<Rec>, args: &Args) {
     let (mut completed, mut blocked, mut changed, mut panicked, mut skipped) = (0usize, 0usize, 0usize, 0usize, 0usize);
     let mut idx = from;
     let mut sample: Option<Value> = None;
-    let mut seq_cache: HashMap<(usize, usize), (Option<(Vec<Option<bool>>, Value)>, Option<(Vec<Option<bool>>, Value)>)> = HashMap::new();
+    let mut seq_cache: HashMap<(usize, usize), (Option<(Vec<Rep>, Value)>, Option<(Vec<Rep>, Value)>)> = HashMap::new();
     let (mut serializable, mut not_serializable, mut seq_unavailable) = (0usize, 0usize, 0usize);
     let mut odd: Vec<Value> = vec![];
     while idx < triples.len() {
@@ -1505,9 +1627,10 @@ fn sweep(rec: &Arc<Rec>, args: &Args) {
             seq_cache.insert(key, (pq, qp));
         }
         let (pq, qp) = seq_cache.get(&key).unwrap();
-        let replies: Vec<Option<bool>> = th.iter().map(|t| t["result"].as_bool()).collect();
+        let replies: Vec<Rep> =
+            th.iter().map(|t| (t["result"].as_bool(), t["reply"].as_str().map(|x| x.to_string()))).collect();
         let fin = &report["final"];
-        let matches = |o: &Option<(Vec<Option<bool>>, Value)>| -> bool {
+        let matches = |o: &Option<(Vec<Rep>, Value)>| -> bool {
             match o {
                 Some((r, st)) => *r == replies && st == fin,
                 None => false,
@@ -1520,13 +1643,17 @@ fn sweep(rec: &Arc<Rec>, args: &Args) {
         } else {
             not_serializable += 1;
             if odd.len() < 5 {
-                let d = |o: &Option<(Vec<Option<bool>>, Value)>| -> Value {
+                let d = |o: &Option<(Vec<Rep>, Value)>| -> Value {
                     let (r, st) = o.as_ref().unwrap();
                     let keys = state_diff(st, fin);
                     let detail: Vec<Value> = keys.iter().take(3).map(|k| json!({"key": k, "sequential": st.get(k), "concurrent": fin.get(k)})).collect();
-                    json!({"replies": r, "differing_keys": keys, "detail": detail})
+                    json!({"replies": r.iter().map(|x| x.0).collect::<Vec<_>>(),
+                           "reply_content": r.iter().map(|x| x.1.clone()).collect::<Vec<_>>(),
+                           "differing_keys": keys, "detail": detail})
                 };
-                odd.push(json!({"spec": report["spec"], "steps": report["steps"], "replies": replies,
+                odd.push(json!({"spec": report["spec"], "steps": report["steps"],
+                                "replies": replies.iter().map(|x| x.0).collect::<Vec<_>>(),
+                                "reply_content": replies.iter().map(|x| x.1.clone()).collect::<Vec<_>>(),
                                 "schedule": report["schedule"], "vs_P_then_Q": d(pq), "vs_Q_then_P": d(qp)}));
             }
         }
